@@ -668,6 +668,19 @@ def main():
     concurrent_end_runs(chk)
     # a connection shared by threads (RpycServe's setting): the peer vanishes at an arbitrary moment
     from harness.drivers import serve_common as svc
+    for cfgf, what in (("MC_RpycServeEof_2.cfg", "2 client threads"), ("MC_RpycServeEof_1bg.cfg", "1 client + background serving thread")):
+        r2 = tlc.require_ok(tlc.run_tlc("MC_RpycServeEof", cfgf, workers=4, coverage=True), "RpycServeEof")
+        if r2.violation:
+            raise tlc.MachineryError("RpycServeEof violates " + r2.violation)
+        chk.add_tlc(r2, "RpycServeEof (%s): the peer vanishes at any moment: EveryoneEnds (liveness), FailOnlyWhenGone, StillRight" % what)
+        for a in ("SPollEof", "SRaise", "CWriteEof", "PeerGone"):
+            if r2.coverage.get(a, (0, 0))[1] == 0:
+                raise tlc.MachineryError("vacuity: action %s never taken in %s" % (a, cfgf))
+    r3 = tlc.run_tlc("MC_RpycServeEof", "MC_RpycServeEof_2_nonotify.cfg", workers=4)
+    if r3.violation != "EveryoneEnds":
+        raise tlc.MachineryError("without the notification on the way out of serve() RpycServeEof is expected to violate EveryoneEnds, "
+                                 "TLC says %r" % r3.violation)
+    chk.add_tlc(r3, "RpycServeEof without the notification in serve()'s finally block: a waiter sleeps for ever (counterexample)")
 
     def on_bad(bad, rep):
         for key, msg in bad:
